@@ -1,9 +1,11 @@
 SPECIFICATION Spec
 CONSTANTS
   Reqs <- ReqsSame
+  Parts <- P112
+  RegAfter <- RegFirst
   Dups = {}
+  LookupAtomic = TRUE
   FailIdx = {3}
-  RegisterFirst = TRUE
-INVARIANTS NoSpurious MatchOnce NoLoss
+INVARIANTS NoSpurious MatchOnce NoLoss RegisterFirst
 CHECK_DEADLOCK FALSE
 VIEW McView
